@@ -207,21 +207,20 @@ func (llb *Buffer) ReadFrom(r io.Reader) (n int64, err error) {
 			panic("Buffer.ReadFrom: reader returned negative count from Read")
 		}
 		n += int64(m)
-		b = b[:m]
+		// A Reader may return m > 0 bytes together with io.EOF or any
+		// other error, those bytes must not be dropped. It may also
+		// return 0, nil, which must not leave an empty node in the list.
+		if m > 0 {
+			llb.pushBack(&node{buf: b[:m]})
+		} else {
+			bsPool.Put(b)
+		}
+		if err == io.EOF {
+			return n, nil
+		}
 		if err != nil {
-			// A Reader may return m > 0 bytes together with io.EOF or
-			// any other error, those bytes must not be dropped.
-			if m > 0 {
-				llb.pushBack(&node{buf: b})
-			} else {
-				bsPool.Put(b)
-			}
-			if err == io.EOF {
-				err = nil
-			}
 			return
 		}
-		llb.pushBack(&node{buf: b})
 	}
 }
 
